@@ -30,8 +30,16 @@ func mkNode(w *world.Wallet, typ node.NodeType, port int) *node.Node {
 // buildPool adds fresh node objects for the wallets in the given insertion order.
 func buildPool(ws []*world.Wallet, order []int, typ node.NodeType) *node.Pool {
 	p := node.NewPool(typ)
+	made := map[int]*node.Node{}
 	for k, i := range order {
-		if err := p.AddNode(mkNode(ws[i], typ, 9000+k)); err != nil {
+		// a member that is added again comes as a fresh object (refreshed registration, decoded again) or as the very same
+		// object (a set-up that runs twice over the nodes it already holds), alternating with the position
+		n := made[i]
+		if n == nil || k%2 == 0 {
+			n = mkNode(ws[i], typ, 9000+k)
+			made[i] = n
+		}
+		if err := p.AddNode(n); err != nil {
 			panic(fmt.Sprintf("Pool.AddNode: %v", err))
 		}
 	}
